@@ -296,6 +296,7 @@ def run(ctx):
     from . import C02
     C02.r3_allocator(ctx)    # racing opens on one session get distinct ids (each verdict reaches its own open)
     r8_version_independent_of_padding(ctx)
+    C09.r1_locks(ctx)        # the open path cannot deadlock on its own guards when the SYN write fails (an open that never returns reports nothing)
     r1_r2_server(ctx)
     r3_client_arm(ctx)
     r4_client_wait(ctx)
